@@ -525,7 +525,18 @@ def gen_scenario(rng, W, quick, variant=None):
         fails = sorted(rng.sample(range(N), N // 3))
     else:
         fails = sorted({0, N - 1, rng.randrange(N)})
-    variant = variant or rng.choice(["scheduler", "scheduler", "queued", "flood", "ragged"])
+    variant = variant or rng.choice(["scheduler", "scheduler", "queued", "flood", "ragged", "backlog", "backlog"])
+    if variant == "backlog":
+        # the code sleeps 50 ms after every submit, so units of ≤ 30 ms never wait in the queue; to exercise the
+        # queue discipline and stop()'s drain loop these units take longer than W submits (≈ N·70 ms in total)
+        N = rng.randint(20, 36) if quick else rng.randint(20, 60)
+        dur = [0 if rng.random() < 0.2 else rng.randint(50, 90) * W for _ in range(N)]
+        fails = [u for u in fails if u < N]
+        shape = "backlog"
+        burst, refill = rng.choice([N, N, 3 * W + 1]), [1]
+        leave = rng.choice([0, rng.randint(1, W), N])
+        return {"W": W, "N": N, "dur_ms": dur, "fails": fails, "burst": burst, "refill": refill, "leave": leave,
+                "variant": variant, "shape": shape, "fmode": fmode}
     if variant == "scheduler":       # exactly like scheduler.py: W at first, then one for one
         burst, refill = W, [1]
     elif variant == "queued":        # more units than workers outstanding: the queue is used
@@ -779,7 +790,8 @@ def check_against_model(ctx, scen, obs, rng, n_mut):
     if not p_once:
         fails.append(("C17:runner:trace-not-exactly-once", "observed trace has a unit submitted/taken/finished/collected twice or before its cause"))
     if not p_fifo:
-        fails.append(("C17:runner:trace-not-fifo", "units were not taken in submission order"))
+        # the queue discipline is a fact of the model, not part of the property: a correspondence break
+        ctx.disagree({"scenario": scen, "what": "units were not taken in submission order"}, "observed take order ≠ submit order", "fifo_order")
     if full and not p_comp:
         fails.append(("C17:runner:trace-incomplete", "after stop() a submitted unit has no take or no finish event"))
     if not ctx._driver_ok:
@@ -809,8 +821,6 @@ def check_against_model(ctx, scen, obs, rng, n_mut):
         ctx.disagree({**case, "predicate": "accepts"}, f"python transcription rejects at {p_acc}", out[0])
     if d.get("once") == "0" and p_once:
         fails.append(("C17:runner:trace-not-exactly-once", f"Lean exactlyOnceB false on the observed trace: {out[0]}"))
-    if d.get("fifo") == "0" and p_fifo:
-        fails.append(("C17:runner:trace-not-fifo", f"Lean fifoB false on the observed trace: {out[0]}"))
     if full and d.get("acc") == "1":
         exp = {"quiescent": "1", "stopped": "1", "sub": str(N), "queue": "0", "running": "0", "done": str(N), "collected": str(N)}
         for k, v in exp.items():
@@ -858,9 +868,11 @@ def run_runner(ctx):
     rng = ctx.rng
     quick = ctx.quick
     rule = ("runner: one scenario = (W∈1..8 workers, N units (quick 50–90, thorough 50–200), scripted durations 0–30 ms in 4 "
-            "shapes, failing units none/some/a third/first+last, submission script scheduler-like / queue-using / all up "
-            "front / ragged, 0..W results left unconsumed at stop()) run on the real aiorunner in a fresh interpreter; "
-            "non-trivial = completion order differs from submission order, or a unit failed, or units waited in the queue; "
+            "shapes, failing units none/some/a third/first+last, submission script scheduler-like / more than W outstanding / "
+            "all up front / ragged, 0..W results left unconsumed at stop(); plus 'backlog' scenarios: 20–60 units of "
+            "50–90 ms × W so that units really wait in the queue, 0 / ≤W / all results unconsumed at stop()) run on the real "
+            "aiorunner in a fresh interpreter; "
+            "non-trivial = completion order differs from submission order, or a unit failed, or ≥ 2 units waited in the queue; "
             "distinct by hash of the observed event trace.  Every W occurs.")
     ctx.rule = (ctx.rule + " | " if ctx.rule else "") + rule
     n_per_w = 2 if quick else 14
@@ -871,6 +883,8 @@ def run_runner(ctx):
         for W in range(1, 9):
             v = ["scheduler", "queued"][rep] if (quick and rep < 2) else None
             scens.append(gen_scenario(rng, W, quick, v))
+    for W in ((1, 2, 3, 5, 8) if quick else (1, 2, 3, 4, 5, 6, 7, 8)):
+        scens.append(gen_scenario(rng, W, quick, "backlog"))
     # boundary scenarios: one unit, fewer units than workers, everything fails
     scens.append({"W": 3, "N": 1, "dur_ms": [5], "fails": [], "burst": 3, "refill": [1], "leave": 0,
                   "variant": "scheduler", "shape": "uniform", "fmode": "none"})
@@ -881,6 +895,11 @@ def run_runner(ctx):
     # stop() called with a long queue and busy workers, results abandoned (the scheduler's short-restart case, enlarged)
     scens.append({"W": 3, "N": 40, "dur_ms": [30, 25, 20, 30] * 10, "fails": [7, 38, 39], "burst": 40, "refill": [1], "leave": 3,
                   "variant": "flood", "shape": "long", "fmode": "some"})
+    # stop() called while the queue is long and nothing was consumed
+    scens.append({"W": 1, "N": 6, "dur_ms": [250] * 6, "fails": [2], "burst": 6, "refill": [1], "leave": 6,
+                  "variant": "backlog", "shape": "backlog", "fmode": "some"})
+    scens.append({"W": 3, "N": 15, "dur_ms": [300, 0, 280] * 5, "fails": [0, 14], "burst": 15, "refill": [1], "leave": 15,
+                  "variant": "backlog", "shape": "backlog", "fmode": "edges"})
     mut_rngs = [__import__("random").Random(rng.random()) for _ in scens]
     tmpdir = tempfile.mkdtemp(prefix="c17r_parent_")
     t0 = time.time()
@@ -913,9 +932,9 @@ def run_runner(ctx):
             for k in ("out_of_order", "fin_after_stop"):
                 if feat[k]:
                     ctx.hit(f"runner:{k}")
-            if feat["queue_max"] > 0 and scen["burst"] > scen["W"]:
-                ctx.hit("runner:units-waited-in-queue")
-            if feat["out_of_order"] or feat["n_fail"] or feat["queue_max"] > scen["W"]:
+            if feat["queue_max"] >= 2:
+                ctx.hit("runner:queue-held-2-or-more-units")
+            if feat["out_of_order"] or feat["n_fail"] or feat["queue_max"] >= 2:
                 ctx.distinct(("runner", hashlib.sha256(" ".join(obs.get("events", [])).encode()).hexdigest()))
             if i % 7 == 0:
                 ctx.sample({"runner_scenario": {k: scen[k] for k in ("W", "N", "burst", "refill", "leave", "variant", "shape", "fmode")},
